@@ -94,8 +94,8 @@ Proof. exact drive_result_unique. Qed.
     [XRep v items] (ForeignSound4.v): the shape of the value the parser builds for a source of the full
     AST [xitem] of Foreign.v (arguments in a key-sorted map, every string argument parsed again).  On
     every project whose values have the shape of their sources, [inline] is [xdenote]: argument maps in
-    BTreeMap order against arguments in source order, arguments inlined in the locale the target was
-    found in (inherits walk included), substitution through chains of references. *)
+    BTreeMap order against arguments in source order, arguments inlined in the locale the
+    reference is written in (the target in the locale the inherits walk designates), substitution through chains of references. *)
 Theorem C06b_inline_xdenote_args : forall vals dflt inherits src,
   xproj_rel vals src ->
   forall f L v items d,
@@ -319,3 +319,45 @@ Example C06b_ex_args_final :
   end = Some [PcText (t "[A]")]
   /\ option_map (@pc_norm) (xdenote ax_src (t "en") [] 40 (t "en") ax_k1) = Some [PcText (t "[A]")].
 Proof. split; vm_compute; reflexivity. Qed.
+
+(** * the arguments of a reference belong to the locale the reference is written in
+    (defect C06-args-locale, repaired: fixes/C06-args-locale.diff).
+    fr-CA (inherits fr):  c = null   b = "B-ca"   d = "$t(c, {"x": "$t(b)"})"
+    fr:                   c = "[{{x}}]"   b absent (first project) / b = "B-fr" (second project)
+    en (default):         c = "C-en"   b = "B-en"
+    fr-CA.d must render [B-ca]: the value of c is inherited from fr, the argument is fr-CA's.
+    The code before the repair resolved the argument in fr: it rejected the first project with
+    MissingForeignKey and rendered [B-fr] in the second. *)
+Definition al_tree (fr_b : list (str * snode)) : svalues := SVLocales
+  [ (t "en", [ (t "b", SVal [RText (t "B-en")]); (t "c", SVal [RText (t "C-en")]) ]);
+    (t "fr", fr_b ++ [ (t "c", SVal [RText (t "["); RVar [] (t "x") [] None; RText (t "]")]) ]);
+    (t "fr-CA", [ (t "b", SVal [RText (t "B-ca")]); (t "c", SNull);
+                  (t "d", SVal [RRefA None [([], t "c", [])] [(t "x", RAStr [ARef None [([], t "b", [])]])]]) ]) ].
+Definition al_vals (fr_b : list (str * snode)) : values :=
+  match compile ident_check json_args_model (al_tree fr_b) with Some v => v | None => VLocales [] end.
+Definition al_run (fv : values -> str -> list (str * str) -> option str -> str -> list str -> node -> res (option pv))
+           (fr_b : list (str * snode)) : res (option (list piece)) :=
+  match get_value_at (al_vals fr_b) (t "fr-CA") (None, [t "d"]) with
+  | Some n => match fv (al_vals fr_b) (t "en") ex_inherits None (t "fr-CA") [t "d"] n with
+              | Ok (Some r) => Ok (Some (pieces r))
+              | Ok None => Ok None
+              | Err k => Err k | Panic k => Panic k | OutOfFuel => OutOfFuel | Unmodelled => Unmodelled
+              end
+  | None => Unmodelled
+  end.
+Definition al_spec (fr_b : list (str * snode)) : option (list piece) :=
+  match src_of_tree (al_tree fr_b) (t "fr-CA") (None, [t "d"]) with
+  | Some (Some items) =>
+      option_map (@pc_norm) (xdenote (xsrc (src_of_tree (al_tree fr_b))) (t "en") ex_inherits 40 (t "fr-CA") (map to_x items))
+  | _ => None
+  end.
+Definition al_fr_b : list (str * snode) := [(t "b", SVal [RText (t "B-fr")])].
+Theorem C06_args_locale_old_refuted :
+  (* the source-level semantics: the referencing locale's b *)
+  al_spec [] = Some [PcText (t "[B-ca]")] /\ al_spec al_fr_b = Some [PcText (t "[B-ca]")]
+  (* the repaired resolver agrees *)
+  /\ al_run final_value [] = Ok (Some [PcText (t "[B-ca]")]) /\ al_run final_value al_fr_b = Ok (Some [PcText (t "[B-ca]")])
+  (* the resolver before the repair rejects the valid project, or renders the other locale's text *)
+  /\ al_run final_value_old [] = Err E_MissingForeignKey
+  /\ al_run final_value_old al_fr_b = Ok (Some [PcText (t "[B-fr]")]).
+Proof. repeat split; vm_compute; reflexivity. Qed.
